@@ -74,6 +74,11 @@ def reset_world(wd, initial):
     os.makedirs(os.path.join(outside, "a"))
     with open(os.path.join(outside, "a", "inner.txt"), "wb") as f:
         f.write(b"outside/a/inner")
+    # a spelling of the destination that passes through a link and comes back with '..': root/w/sub/../dest IS the
+    # destination (sub -> ../jail/adir), while folding the '..' textually would give root/w/dest
+    os.makedirs(os.path.join(root, "w"))
+    os.makedirs(os.path.join(jail, "adir"))
+    os.symlink("../jail/adir", os.path.join(root, "w", "sub"))
     if initial == "a-dir":
         os.makedirs(os.path.join(dest, "a"))
         with open(os.path.join(dest, "a", "keep.txt"), "wb") as f:
@@ -190,6 +195,8 @@ def run_case(entries, config, wd):
     try:
         if destform == "absolute":
             target = dest
+        elif destform == "dotdot-link":
+            target = os.path.join(root, "w", "sub", "..", "dest")
         elif destform == "relative":
             os.chdir(jail)
             target = "dest"
@@ -259,7 +266,7 @@ def entry_types(name_list, targets=TARGETS, earlier=()):
 
 
 CONFIGS = [("absolute", "empty", "stream"), ("relative", "empty", "stream"), ("none", "empty", "stream"), ("absolute", "a-dir", "stream"),
-           ("absolute", "a-file", "stream"), ("absolute", "empty", "path"), ("absolute", "empty", "path-reverse")]
+           ("absolute", "a-file", "stream"), ("absolute", "empty", "path"), ("absolute", "empty", "path-reverse"), ("dotdot-link", "empty", "stream")]
 
 
 def canon_shape(entries):
@@ -306,6 +313,24 @@ def gen_cases(plane, tier):
                     yield [e1, e2, e3], CONFIGS[(i + 3 * j + 7 * k) % len(CONFIGS)]
     elif plane == "swaps":
         yield from _swap_cases(tier)
+    elif plane == "longpaths":
+        # a directory D close to PATH_MAX, reached again through a short alias s -> D; below it (through the alias) a link M
+        # that climbs out.  The resolved path of M is longer than PATH_MAX - the kernel still follows it through the alias,
+        # while a path-resolving check that cannot lstat() such a path may take M for a plain name.  z -> . only supplies
+        # lexical depth for M's '..'s.
+        for comp in (200, 120):
+            for d_depth in ((14, 17) if comp == 200 else (24, 30)):
+                D = "/".join(["a" * comp] * d_depth)
+                for c_depth in (2, 3, 4):
+                    C = "/".join(["c" * 250] * c_depth)
+                    base = "/".join(["z"] * (d_depth + 3)) + "/s/" + C  # (the kernel follows at most 40 links per lookup)
+                    for k in (0, 1, 2):
+                        up = "../" * (d_depth + c_depth + k)
+                        for victim in ("sibling.txt", "evil"):
+                            ents = [(D, "dir", None), ("z", "symlink", "."), ("s", "symlink", D), (base + "/M", "symlink", up),
+                                    (base + "/M/" + victim, "file", None)]
+                            for cfg in CONFIGS:
+                                yield ents, cfg
     elif plane == "chains":
         # 4..5 entries: link chains and files written through earlier links
         files = [(n, k, None) for n in ["a/evil", "b/evil", "a/b/evil", "b/a/evil", "a/a/evil", "evil", "a", "b", "a/b", "b/a", "./a", "./b", "b/.", "a/", "./a/b"] for k in ("file", "empty")]
@@ -458,7 +483,8 @@ def shard(task):
         sh.note("entry_kinds", "+".join(sorted({k for _, k, _ in entries})))
         sh.case((entries, cfg), nontrivial=hostile, sample={"entries": entries, "config": cfg} if len(sh.samples) < 1 and len(entries) > 1 and hostile else None)
         for sym, msg in r:
-            sh.violation({"symptom": sym, "shape": canon_shape(entries), "opened": cfg[2].split("-")[0]}, f"{entries} config={cfg}: {msg}", {"entries": entries, "config": list(cfg)})
+            shown = [tuple(x if not isinstance(x, str) or len(x) < 60 else x[:20] + f"...({len(x)} chars)..." + x[-24:] for x in e) for e in entries]
+            sh.violation({"symptom": sym, "shape": canon_shape(entries), "opened": cfg[2].split("-")[0]}, f"{shown} config={cfg}: {msg[:400]}", {"entries": entries, "config": list(cfg)})
     top = layout_paths(wd)[0]
     shutil.rmtree(top, ignore_errors=True)
     return sh.result()
@@ -481,7 +507,7 @@ def replay(case):
 def main(tier="quick", seed=0, only=None):
     chk = Check("C03", "exploration", MODULE, tier, seed)
     tasks = []
-    for plane in ("singles", "pairs", "triples", "chains", "swaps"):
+    for plane in ("singles", "pairs", "triples", "chains", "swaps", "longpaths"):
         if only and plane not in only:
             continue
         n = sum(1 for _ in gen_cases(plane, tier))
@@ -502,10 +528,10 @@ def main(tier="quick", seed=0, only=None):
         rule=(
             "archives written by ref7z; entries = (name, kind, target): names = all paths of <= 2 (thorough 3) components over {a,b,..,.,'',dest} "
             "with and without a leading '/', plus absolute paths inside and outside the jail; kinds = file, directory, symlink to each of "
-            "{., .., ../.., a, a/.., b/../.., abs-inside, abs-outside, ../../outside}. ALL single entries x 7 configurations (destination "
-            "absolute / relative / None=cwd; destination empty / 'a' is a directory / 'a' is a file; opened by stream = sequential, by path = "
+            "{., .., ../.., a, a/.., b/../.., abs-inside, abs-outside, ../../outside}. ALL single entries x 8 configurations (destination "
+            "absolute / relative / None=cwd / spelled through a link and back with '..'; destination empty / 'a' is a directory / 'a' is a file; opened by stream = sequential, by path = "
             "one folder per member, workers run in folder order and in reverse order); ALL ordered pairs and ALL ordered triples over the "
-            "tier's reduced alphabets; link chains of 3 (thorough 4) links followed by a file written through them; swaps: a file or directory extracted through a harmless link that a later member re-points (same output path under another spelling) to the parent, to a sibling directory or outside; interleave: archives opened by name with one folder per member (a file in one folder, the links that would redirect its directory in others) under EVERY interleaving of the per-folder worker threads with at most 1 (thorough 2) preemptions, every executed source line of py7zr in a worker thread being a scheduling point. Oracle: byte/mode/mtime/"
+            "tier's reduced alphabets; link chains of 3 (thorough 4) links followed by a file written through them; swaps: a file or directory extracted through a harmless link that a later member re-points (same output path under another spelling) to the parent, to a sibling directory or outside; longpaths: a directory of 14..30 long components (total just below PATH_MAX), a short alias to it, and below the alias a link whose resolved path exceeds PATH_MAX and that climbs 0..2 levels above the destination, then a file through it; interleave: archives opened by name with one folder per member (a file in one folder, the links that would redirect its directory in others) under EVERY interleaving of the per-folder worker threads with at most 1 (thorough 2) preemptions, every executed source line of py7zr in a worker thread being a scheduling point. Oracle: byte/mode/mtime/"
             "ctime snapshot of everything around the destination identical before and after, whether extraction returned or raised; "
             "tripwire on write-intent audit events leaving the scratch area. Non-trivial = the sequence contains a link, '..', or an absolute path."
         ),
